@@ -3,7 +3,10 @@ package interp
 // Stubs and models for standard-library leaves reached from the library.
 
 import (
+	"go/token"
 	"go/types"
+
+	"golang.org/x/tools/go/ssa"
 )
 
 func errorValue(msg string) value {
@@ -55,4 +58,173 @@ func symRuneEncode(r sym) []value {
 		return []value{b(Bin(OpOr, shr(12), BV(0xE0, 32))), b(low6(shr(6))), b(low6(t))}
 	}
 	return []value{b(Bin(OpOr, shr(18), BV(0xF0, 32))), b(low6(shr(12))), b(low6(shr(6))), b(low6(t))}
+}
+
+// ---- models of internal/bytealg (assembly in the real runtime) over possibly symbolic bytes ----
+
+func byteCells(v value) []value {
+	switch v := v.(type) {
+	case []value:
+		return v
+	case string:
+		return toSymStr(v)
+	case symstr:
+		return v
+	}
+	panic(engineError{"byteCells: unexpected operand"})
+}
+
+func indexByteTerm(s []value, c value) value {
+	res := BV(^uint64(0), 64) // -1
+	ct := toTerm(c, 8)
+	for i := len(s) - 1; i >= 0; i-- {
+		res = Ite(Cmp(OpEq, toTerm(s[i], 8), ct), BV(uint64(i), 64), res)
+	}
+	return mkval(res, types.Int)
+}
+
+func lastIndexByteTerm(s []value, c value) value {
+	res := BV(^uint64(0), 64)
+	ct := toTerm(c, 8)
+	for i := 0; i < len(s); i++ {
+		res = Ite(Cmp(OpEq, toTerm(s[i], 8), ct), BV(uint64(i), 64), res)
+	}
+	return mkval(res, types.Int)
+}
+
+func countByteTerm(s []value, c value) value {
+	res := BV(0, 64)
+	ct := toTerm(c, 8)
+	for i := range s {
+		res = Bin(OpAdd, res, Ite(Cmp(OpEq, toTerm(s[i], 8), ct), BV(1, 64), BV(0, 64)))
+	}
+	return mkval(res, types.Int)
+}
+
+func indexTerm(a, b []value) value {
+	res := BV(^uint64(0), 64)
+	for i := len(a) - len(b); i >= 0; i-- {
+		res = Ite(bytesEqTerm(a[i:i+len(b)], b), BV(uint64(i), 64), res)
+	}
+	return mkval(res, types.Int)
+}
+
+func compareTerm(a, b []value) value {
+	lt := bytesLtTerm(a, b)
+	eq := bytesEqTerm(a, b)
+	return mkval(Ite(eq, BV(0, 64), Ite(lt, BV(^uint64(0), 64), BV(1, 64))), types.Int)
+}
+
+func init() {
+	for _, k := range []string{"bytes.Equal", "bytes.IndexByte", "strconv.Atoi", "strconv.Itoa", "strconv.FormatFloat",
+		"strings.Count", "strings.EqualFold", "strings.Index", "strings.IndexByte", "strings.Replace", "strings.ToLower",
+		"unicode/utf8.DecodeRuneInString"} {
+		delete(externals, k)
+	}
+	ba := "internal/bytealg."
+	externals[ba+"IndexByte"] = func(fr *frame, args []value) value { return indexByteTerm(byteCells(args[0]), args[1]) }
+	externals[ba+"IndexByteString"] = externals[ba+"IndexByte"]
+	externals[ba+"LastIndexByte"] = func(fr *frame, args []value) value { return lastIndexByteTerm(byteCells(args[0]), args[1]) }
+	externals[ba+"LastIndexByteString"] = externals[ba+"LastIndexByte"]
+	externals[ba+"Count"] = func(fr *frame, args []value) value { return countByteTerm(byteCells(args[0]), args[1]) }
+	externals[ba+"CountString"] = externals[ba+"Count"]
+	externals[ba+"Index"] = func(fr *frame, args []value) value { return indexTerm(byteCells(args[0]), byteCells(args[1])) }
+	externals[ba+"IndexString"] = externals[ba+"Index"]
+	externals[ba+"Compare"] = func(fr *frame, args []value) value { return compareTerm(byteCells(args[0]), byteCells(args[1])) }
+	externals[ba+"Equal"] = func(fr *frame, args []value) value {
+		return mkval(bytesEqTerm(byteCells(args[0]), byteCells(args[1])), types.Bool)
+	}
+	externals[ba+"MakeNoZero"] = func(fr *frame, args []value) value {
+		n := int(asInt64(args[0]))
+		s := make([]value, n)
+		for i := range s {
+			s[i] = uint8(0)
+		}
+		return s
+	}
+	// bytealg.Index* are only valid up to MaxLen in the real package; report a large limit
+	externals["internal/bytealg.Cutover"] = func(fr *frame, args []value) value { return int(1 << 30) }
+	externals["bytes.Index"] = func(fr *frame, args []value) value { return indexTerm(byteCells(args[0]), byteCells(args[1])) }
+	externals["strings.Index"] = func(fr *frame, args []value) value { return indexTerm(byteCells(args[0]), byteCells(args[1])) }
+}
+
+// ---- ToHash summary ----
+// css.ToHash / html.ToHash are generated perfect-hash lookups (FNV multiply
+// chain + two table probes). Outside the C16 lemma harnesses they are replaced
+// by their proved summary: ToHash(s) = h_i if s equals the i-th table name, else 0.
+// The names and hashes are read from the interpreted package's own tables, and
+// each h_i is obtained by running the real ToHash concretely on the name.
+
+type hashEntry struct {
+	name []byte
+	h    value
+}
+
+var hashSummaries = map[string][]hashEntry{}
+
+func buildHashSummary(fr *frame, fn *ssa.Function) []hashEntry {
+	pkg := fn.Pkg
+	tab := fr.i.globals[pkg.Var("_Hash_table")]
+	text := fr.i.globals[pkg.Var("_Hash_text")]
+	if tab == nil || text == nil {
+		panic(engineError{"ToHash summary: tables not found in " + pkg.Pkg.Path()})
+	}
+	txt := (*text).([]value)
+	var out []hashEntry
+	seen := map[uint64]bool{}
+	for _, e := range (*tab).(array) {
+		hv := asUint64Bits(e)
+		if hv == 0 || seen[hv] {
+			continue
+		}
+		seen[hv] = true
+		start, n := hv>>8, hv&0xff
+		if start+n > uint64(len(txt)) {
+			continue
+		}
+		name := make([]byte, n)
+		arg := make([]value, n)
+		for i := range name {
+			name[i] = txt[start+uint64(i)].(uint8)
+			arg[i] = name[i]
+		}
+		// run the real code concretely on the name
+		saved := Params["realhash"]
+		Params["realhash"] = 1
+		h := callSSA(fr.i, fr, token.NoPos, fn, []value{arg}, nil)
+		Params["realhash"] = saved
+		out = append(out, hashEntry{name, h})
+	}
+	return out
+}
+
+func hashSummaryStub(fr *frame, args []value) (value, bool) {
+	if Params["realhash"] != 0 {
+		return nil, false
+	}
+	fn := fr.fn
+	key := fn.String()
+	sum, ok := hashSummaries[key]
+	if !ok {
+		sum = buildHashSummary(fr, fn)
+		hashSummaries[key] = sum
+	}
+	s := args[0].([]value)
+	res := BV(0, 32)
+	for _, e := range sum {
+		if len(e.name) != len(s) {
+			continue
+		}
+		nameCells := make([]value, len(e.name))
+		for i, c := range e.name {
+			nameCells[i] = c
+		}
+		res = Ite(bytesEqTerm(s, nameCells), BV(asUint64Bits(e.h), 32), res)
+	}
+	return mkval(res, types.Uint32), true
+}
+
+func init() {
+	stubOverrides["github.com/tdewolff/parse/v2/html.ToHash"] = hashSummaryStub
+	stubOverrides["github.com/tdewolff/parse/v2/css.ToHash"] = hashSummaryStub
 }
